@@ -5,6 +5,8 @@ import (
 	"fmt"
 	"strings"
 
+	"github.com/facebookincubator/tacquito/cmds/server/config"
+
 	"verif/mc/evid"
 	"verif/mc/srvx"
 )
@@ -16,6 +18,7 @@ func init() {
 		Spec: func(tier string) evid.Spec {
 			return evid.Spec{ID: "C18", Level: "model_checking", Exhaustive: true,
 				Rule: "the C10 configuration with every password and both shared secrets replaced by unique VERIF_SEED-derived tokens; a recording logger implementing the handlers' logger interface (Infof/Errorf/Debugf/Record/Set) at all levels; " +
+					"configuration plane: 4 configurations (main; both scopes served from one keychain entry; a third scope sharing an entry; unassigned scope + unknown handler/provider types + duplicate user) each loaded alone and reloaded over each other, every call the loader makes on the logger searched for the shared secrets, then a login served; " +
 					"histories: depth <= 3 over the C10 core alphabet, depth 3 over the ASCII-login packets plus passwords containing a non-ASCII byte (which travel the decode-error paths), and depth 2 over the full alphabet (x 2 session ids), plus the full START product action{1,2,4} x type{1..6} x service{0,1,2} x minor{0,1} x first sequence number{1,3,255} carrying a password token (right and, for PAP, wrong) in data, alone and followed by a CONTINUE. " +
 					"A token counts as a presented password when it travels in the data of a START whose authen_type is PAP or in the CONTINUE answering GETPASS (a token sent anywhere else, e.g. typed as a user name, is dropped from the watch list for that history). " +
 					"Oracle after every packet: no watched token and no shared secret occurs in any formatted message, in any Record value whose key the same call does not list as obscured, in any field selected by key in a Set (retention) call, " +
@@ -141,6 +144,19 @@ func searchLogs(calls []srvx.LogCall, tokens []string) (where, token string) {
 
 func c18Run(c *Ctx) {
 	e := c10Env(tokenSecrets(c.Seed), "ok")
+	// configuration plane: what the loader itself logs when a configuration is loaded and when another replaces it
+	{
+		n := len(c18Configs(e))
+		job := 0
+		for a := 0; a < n; a++ {
+			for b := -1; b < n; b++ {
+				job++
+				if c.Mine(job) {
+					c18ConfigPlane(c, e, c18CfgCase{Load: a, Reload: b})
+				}
+			}
+		}
+	}
 	var w *c18Watch
 	step := func(hist []rPkt, s stepInfo) (string, string) {
 		if len(hist) == 1 {
@@ -234,6 +250,102 @@ func c18Run(c *Ctx) {
 	}
 }
 
+// c18CfgCase is one (load, optional reload) pair of the configuration plane.
+type c18CfgCase struct {
+	Load   int `json:"config"`
+	Reload int `json:"reload"` // -1: none
+}
+
+// c18Configs: variants of the main configuration that walk the loader's branches - scopes sharing one keychain entry,
+// a third scope, a scope without users, unknown handler / provider types, duplicate user names.
+func c18Configs(e *rEnv) []config.ServerConfig {
+	base := func() config.ServerConfig { return deepCopyCfg(e.Cfg) }
+	var out []config.ServerConfig
+	out = append(out, base())
+	{ // both scopes are served from ONE keychain entry
+		c := base()
+		c.Secrets[1].Secret = c.Secrets[0].Secret
+		out = append(out, c)
+	}
+	{ // a third scope that shares the second scope's entry
+		c := base()
+		s3 := c.Secrets[1]
+		s3.Name = "s3"
+		s3.Options = map[string]string{"prefixes": `["172.16.0.0/12"]`}
+		c.Secrets = append(c.Secrets, s3)
+		for i := range c.Users {
+			if c.Users[i].Name == "elsewhere" {
+				c.Users[i].Scopes = append(c.Users[i].Scopes, "s3")
+			}
+		}
+		out = append(out, c)
+	}
+	{ // error branches: a scope nobody is assigned to, unknown handler and provider types, a duplicated user name
+		c := base()
+		lonely := c.Secrets[0]
+		lonely.Name = "lonely"
+		badH := c.Secrets[0]
+		badH.Name, badH.Handler = "bad-handler", config.Handler{Type: config.HandlerType(99)}
+		badP := c.Secrets[1]
+		badP.Name, badP.Type = "bad-provider", config.ProviderType(99)
+		c.Secrets = append(c.Secrets, lonely, badH, badP)
+		dup := c.Users[0]
+		dup.Scopes = []string{"s1", "bad-handler", "bad-provider"}
+		c.Users = append(c.Users, dup)
+		out = append(out, c)
+	}
+	return out
+}
+
+func c18ConfigPlane(c *Ctx, e *rEnv, cs c18CfgCase) {
+	c.R.Eval()
+	c.Cur(cs)
+	cfgs := c18Configs(e)
+	secrets := []string{e.Sec.Key1, e.Sec.Key2}
+	judge := func(when string, calls []srvx.LogCall) bool {
+		if where, _ := searchLogs(calls, secrets); where != "" {
+			c.R.ViolateMin("leak/config/"+strings.SplitN(where, ":", 2)[0], fmt.Sprintf("a shared secret reached the logger while %s: %s", when, where), cs, 1)
+			return false
+		}
+		return true
+	}
+	rw, err := newRWorld(cfgs[cs.Load], e.KC, true)
+	if err != nil {
+		panic(err)
+	}
+	defer rw.stop()
+	c.R.Trans(1)
+	if !judge(fmt.Sprintf("configuration %d was loaded", cs.Load), rw.Log.Take()) {
+		return
+	}
+	if cs.Reload >= 0 {
+		rw.reload(cfgs[cs.Reload])
+		c.R.Trans(1)
+		if !judge(fmt.Sprintf("configuration %d was reloaded over configuration %d", cs.Reload, cs.Load), rw.Log.Take()) {
+			return
+		}
+	}
+	// the configuration in force is really served: a PAP login obfuscated with the first scope's secret passes
+	rc, err := rw.openR(e, "s1")
+	if err != nil {
+		c.Abort("hang", err.Error(), cs)
+	}
+	info, err := rw.deliverR(rc, 0, rPkt{Kind: "pap", User: "own", Pw: e.Sec.Own})
+	if err != nil {
+		c.Abort("hang", err.Error(), cs)
+	}
+	if !rc.C.Closed() {
+		rc.C.FeedEOF()
+	}
+	if len(info.Replies) != 1 || info.Replies[0] == nil || info.Replies[0].N["status"] != 1 {
+		c.R.Count("config_plane_login_not_passed", 1)
+	} else {
+		c.R.Distinct(evid.Hash("cfg", cs))
+	}
+	judge("a login was served under it", info.Logs)
+	c.R.Trace()
+}
+
 // rExploreTok is rExplore with logging kept and replays marked as token-based.
 func rExploreTok(c *Ctx, e *rEnv, alpha []rPkt, depth int, step func(hist []rPkt, s stepInfo) (string, string)) {
 	rExploreOpt(c, e, alpha, depth, true, "s1", true, step, nil)
@@ -243,6 +355,14 @@ func c18Replay(c *Ctx, raw json.RawMessage) {
 	var cs rCase
 	json.Unmarshal(raw, &cs)
 	e := c10Env(tokenSecrets(c.Seed), "ok")
+	var cc struct {
+		Load   *int `json:"config"`
+		Reload int  `json:"reload"`
+	}
+	if json.Unmarshal(raw, &cc) == nil && cc.Load != nil {
+		c18ConfigPlane(c, e, c18CfgCase{Load: *cc.Load, Reload: cc.Reload})
+		return
+	}
 	w := newC18Watch(e)
 	// the replay file stores the tokens of the run that found it; they are re-derived from VERIF_SEED, so
 	// packets are re-instantiated by position in the secret table
